@@ -132,5 +132,5 @@ pub fn decode_script(data: &[u8]) -> crate::script::ScriptSpec {
             _ => Step::Abort,
         });
     }
-    ScriptSpec { indexes, steps }
+    ScriptSpec { indexes, reuse_writers: steps.len() % 2 == 1, steps }
 }
